@@ -1226,7 +1226,7 @@ type hashSeed struct {
 	ext                      string
 }
 
-var algoValues = []uint32{1, 1, 1, 2, 255, 256, 257, 1 << 31, 1<<32 - 1, 513}
+var algoValues = []uint32{1, 1, 1, 1, 2, 3, 7, 128, 254, 255, 255, 256, 257, 1 << 31, 1<<32 - 1}
 
 func (g *Gen) contentHash(mode int, graphOnly bool) *data.ContentHash {
 	var h hashSeed
@@ -1236,10 +1236,18 @@ func (g *Gen) contentHash(mode int, graphOnly bool) *data.ContentHash {
 		// near duplicate: change exactly one aspect (or none = repeat)
 		switch g.R.Intn(7) {
 		case 0:
-			h.digest += 256
+			if g.R.Chance(0.3) {
+				h.digest += 256
+			} else {
+				h.digest = h.digest%255 + 1
+			}
 		case 1:
 			if h.graph {
-				h.canon += 256
+				if g.R.Chance(0.3) {
+					h.canon += 256
+				} else {
+					h.canon = h.canon%255 + 1
+				}
 			} else {
 				h.ext = Pick(g.R, []string{"pdf", "csv", "json", "ab", "abcdef"})
 			}
